@@ -6,6 +6,7 @@
 From Hy Require Import lib.Bytes model.C06_Relay model.C06_Request proof.C06_Relay proof.C06_Request gen.ParamsC06.
 From Hy Require Import model.C06_Pool proof.C06_Pool model.C06_Close proof.C06_Close.
 From Hy Require Import model.C04_Framing model.C06_E2E proof.C06_E2E proof.C06_Frames.
+From Hy Require Import model.C06_Hook proof.C06_Hook proof.C06_Poll.
 From Coq Require Import List NArith ZArith.
 Import ListNotations.
 Local Open Scope N_scope.
@@ -466,3 +467,126 @@ Theorem C06_dial_error_any_script : forall pad sc lost m tr s msg fo ns,
   end.
 Proof. exact e2e_dial_error_any_script. Qed.
 Print Assumptions C06_dial_error_any_script.
+
+(* ---- handleTCPRequest with the RequestHook branch (model/C06_Hook.v): the ok response of a hooked request is written
+   BEFORE the dial.  A run is any list of handler actions the LTS accepts from HReadReq (hook present or not, whatever the
+   hook returns, dial ok or failed, then every run of the relay LTS).
+   At most one response frame is ever written on a stream, on every run. *)
+Theorem C06_one_response_per_stream : forall m tr p, hexec false m HReadReq tr = Some p -> (length (hresps tr) <= 1)%nat.
+Proof. exact one_response_per_stream. Qed.
+Print Assumptions C06_one_response_per_stream.
+
+(* On every run, hooked or not: the stream carries the response frame (if one was written yet) and then exactly the Down
+   sink of the relay. *)
+Theorem C06_hooked_stream_is_response_then_down_sink : forall wr m tr p, hexec false m HReadReq tr = Some p ->
+  hstream_out wr tr = frames wr (hresps tr) ++ snkb Down (relay_part tr).
+Proof. exact hstream_every_run. Qed.
+Print Assumptions C06_hooked_stream_is_response_then_down_sink.
+
+(* A run that reached the relay, hooked or not: its copy / teardown phase is a run of the relay LTS (behind the three
+   actions of an accepted request, so every theorem above about `exec (init m)` holds of it); exactly one ok frame, then
+   the Down sink on the stream; the target holds what the hook put back (as far as that one Write accepted it) and then
+   exactly the Up sink; stats.Tx starts from what that Write reported. *)
+Theorem C06_hooked_relay_is_a_relay : forall wr m tr tx0 s, hexec false m HReadReq tr = Some (HRelay tx0 s) ->
+  exec (init m) (accept_run ++ relay_part tr) = Some s /\
+  (exists msg, (msg = Connected \/ msg = HookMsg) /\ hresps tr = [(true, msg)] /\
+     hstream_out wr tr = wr true msg ++ snkb Down (relay_part tr)) /\
+  (exists nw, tx0 = (match hputback tr with [] => 0 | _ => u64z nw end) /\
+     htarget_in tr = wrote (hputback tr) nw ++ snkb Up (relay_part tr)).
+Proof. exact relay_of_run. Qed.
+Print Assumptions C06_hooked_relay_is_a_relay.
+
+(* Up on a hooked connection: when the target accepted the whole putback (handleTCPRequest ignores both results of that
+   Write: a target that accepts less leaves a hole, which is why it is a hypothesis), it holds a prefix of what the hook
+   put back followed by what the Up loop read. *)
+Theorem C06_hooked_target_prefix : forall m tr p, hexec false m HReadReq tr = Some p -> wok_tr (relay_part tr) ->
+  (forall c nw, In (XPutback c nw) tr -> (Z.of_N (blen c) <= nw)%Z) ->
+  exists rest, hputback tr ++ srcb Up (relay_part tr) = htarget_in tr ++ rest.
+Proof. exact hooked_target_prefix. Qed.
+Print Assumptions C06_hooked_target_prefix.
+
+(* A failed dial relays nothing, hooked or not: no action of the copy, nothing to a target; on a hooked connection the
+   stream carries the ok frame the hook branch wrote before the dial and NOTHING behind it, otherwise at most the failure
+   frame with the server's message. *)
+Theorem C06_hooked_dial_error_relays_nothing : forall wr m tr p msg,
+  hexec false m HReadReq tr = Some p -> In (XDial (Some msg)) tr ->
+  relay_part tr = [] /\ htarget_in tr = [] /\
+  (In (XCheck true) tr -> hstream_out wr tr = wr true HookMsg /\ hresps tr = [(true, HookMsg)]) /\
+  (In (XCheck false) tr -> hstream_out wr tr = frames wr (hresps tr) /\ (hresps tr = [] \/ hresps tr = [(false, msg)])).
+Proof. exact hooked_dial_error_relays_nothing. Qed.
+Print Assumptions C06_hooked_dial_error_relays_nothing.
+
+(* ... so the application of a hooked connection whose dial failed reads no byte, over the real codec, whatever part of
+   the stream arrives in whatever events, fast open on or off, any buffers; and it never sees a DialError (the failure
+   surfaces as the end of the stream). *)
+Theorem C06_hooked_dial_error_client_reads_nothing : forall m tr p msg pad sc lost fo ns,
+  drawable tcpResponsePaddingMin tcpResponsePaddingMax pad ->
+  hexec false m HReadReq tr = Some p -> In (XDial (Some msg)) tr -> In (XCheck true) tr ->
+  sdata sc ++ lost = hstream_out (real_write_resp pad) tr ->
+  match client_io fo sc ns with
+  | inl e => forall m', e <> RDial m'
+  | inr (got, e) => got = [] /\ forall m', e <> Some (RDial m')
+  end.
+Proof. exact hooked_dial_error_client. Qed.
+Print Assumptions C06_hooked_dial_error_client_reads_nothing.
+
+(* Down on a connection that reached the relay, hooked or not: what the application reads is a prefix of what the
+   target sent. *)
+Theorem C06_hooked_client_reads_prefix : forall m tr tx0 s pad sd sc lost fo ns,
+  drawable tcpResponsePaddingMin tcpResponsePaddingMax pad ->
+  hexec false m HReadReq tr = Some (HRelay tx0 s) -> wok_tr (relay_part tr) -> target_io sd (relay_part tr) ->
+  sdata sc ++ lost = hstream_out (real_write_resp pad) tr ->
+  match client_io fo sc ns with
+  | inl e => forall m', e <> RDial m'
+  | inr (got, e) => (exists rest, sdata sd = got ++ rest) /\ forall m', e <> Some (RDial m')
+  end.
+Proof. exact hooked_client_reads_prefix. Qed.
+Print Assumptions C06_hooked_client_reads_prefix.
+
+(* The guard `if !hooked` of the failure response is needed: the handler that always writes it accepts (and the real one
+   rejects) the run of a hooked connection with a failed dial that puts two frames on the stream, and the application -
+   fast open on or off - reads the whole second frame as payload although no target was ever connected. *)
+Theorem C06_failure_response_must_be_guarded :
+  drawable tcpResponsePaddingMin tcpResponsePaddingMax hx_pad /\
+  hexec true Logged HReadReq (double_response_run [] hx_msg) = Some HEnd /\
+  hexec false Logged HReadReq (double_response_run [] hx_msg) = None /\
+  hresps (double_response_run [] hx_msg) = [(true, HookMsg); (false, hx_msg)] /\
+  relay_part (double_response_run [] hx_msg) = [] /\
+  hstream_out hx_wr (double_response_run [] hx_msg) = hx_wr true HookMsg ++ hx_wr false hx_msg /\
+  hx_wr false hx_msg <> [] /\
+  forall fo, client_io fo [Chunk (hstream_out hx_wr (double_response_run [] hx_msg)); Ev [] (Some EEof)] [4096%nat; 4096%nat]
+             = inr (hx_wr false hx_msg, Some (RStream EEof)).
+Proof. exact unguarded_failure_response_injects. Qed.
+Print Assumptions C06_failure_response_must_be_guarded.
+
+(* Non-vacuity: a hooked run with a one-byte putback that relays in both directions and tears down. *)
+Theorem C06_example_hooked_run : exists s, hexec false Logged HReadReq hx_run = Some (HRelay 1 s) /\ par s = QDone /\
+  hresps hx_run = [(true, HookMsg)] /\ htarget_in hx_run = [x68; x69] /\ hputback hx_run = [x68] /\
+  hstream_out hx_wr hx_run = hx_wr true HookMsg ++ [x4f; x4b] /\ hstats_tx (HRelay 1 s) = Some 2 /\ wok_tr (relay_part hx_run).
+Proof. exact hx_run_ok. Qed.
+Print Assumptions C06_example_hooked_run.
+
+(* ---- the fast-open client that polls with read deadlines (app_polls): k Reads time out before the response has begun
+   to arrive (Established stays false, the next Read parses the response from where the stream is), then the response
+   frame and `early` arrive in any chunking, then the stream goes on in any way (more data, further expired deadlines
+   that are retried, its end): the bytes the application gets are a prefix of the bytes behind the response frame. *)
+Theorem C06_polling_client_reads_prefix : forall pad frame early msg s postc,
+  N.of_nat (length msg) <= MaxMessageLength -> drawable tcpResponsePaddingMin tcpResponsePaddingMax pad ->
+  write_tcp_response true msg pad = Ok frame -> delivers s (frame ++ early) postc ->
+  forall k ns, (k <= length ns)%nat ->
+  exists rest, early ++ sdata postc = fst (app_polls (mkCC false (mkRS (deadlines k ++ s) ctr0)) ns) ++ rest.
+Proof. exact client_polls_prefix. Qed.
+Print Assumptions C06_polling_client_reads_prefix.
+
+(* A failed attempt must not count as "the response has been consumed": the variant that guards the lazy response read
+   with a sync.Once hands, after one expired deadline, the response frame itself to the application in front of the
+   target's bytes (the real Read, on the same script, delivers exactly the target's bytes). *)
+Theorem C06_response_read_must_not_be_once_guarded :
+  drawable tcpResponsePaddingMin tcpResponsePaddingMax px_pad /\
+  write_tcp_response true Connected px_pad = Ok px_frame /\
+  delivers [Chunk px_frame; Ev px_data (Some EEof)] (px_frame ++ []) [Ev px_data (Some EEof)] /\
+  app_polls (mkCC false (mkRS px_script ctr0)) [4096; 4096; 4096]%nat = (px_data, Some (RStream EEof)) /\
+  app_polls_once (mkOC false false (mkRS px_script ctr0)) [4096; 4096; 4096]%nat = (px_frame ++ px_data, Some (RStream EEof)) /\
+  px_frame <> [].
+Proof. exact once_guard_injects_response. Qed.
+Print Assumptions C06_response_read_must_not_be_once_guarded.
